@@ -3,3 +3,378 @@ From Coq Require Import ZArith Reals Lra Lia List Bool.
 From Verif Require Import Base.Num Base.Vec Base.VecR C15.Model.
 Import ListNotations.
 Local Open Scope R_scope.
+
+(* ------------------------------------------------------------------ *)
+(* ascending coordinate vectors                                        *)
+Definition Asc (c : list R) : Prop :=
+  forall i j, (i < j)%nat -> (j < length c)%nat -> nth i c 0 < nth j c 0.
+
+Lemma Asc_tail a c : Asc (a :: c) -> Asc c.
+Proof. intros Ha i j Hij Hj. apply (Ha (S i) (S j)); cbn; lia. Qed.
+
+Lemma Asc_head a c j : Asc (a :: c) -> (j < length c)%nat -> a < nth j c 0.
+Proof. intros Ha Hj. apply (Ha O (S j)); cbn; lia. Qed.
+
+Lemma Asc_le c i j : Asc c -> (i <= j)%nat -> (j < length c)%nat -> nth i c 0 <= nth j c 0.
+Proof.
+  intros Ha Hij Hj. destruct (Nat.eq_dec i j) as [->|Hne]; [lra|].
+  left; apply Ha; lia.
+Qed.
+
+Lemma ascending_Asc (c : list R) : ascending c = true -> Asc c.
+Proof.
+  induction c as [|a c IH]; intros Hb i j Hij Hj; [cbn in Hj; lia|].
+  destruct c as [|b c]; [cbn in Hj; lia|].
+  cbn [ascending] in Hb. apply andb_true_iff in Hb as [Hab Hc]. numR.
+  destruct (Rltb_spec a b) as [Hlt|]; [|discriminate].
+  specialize (IH Hc).
+  destruct j as [|j]; [lia|]. destruct i as [|i].
+  - cbn [nth]. destruct j as [|j]; [exact Hlt|].
+    eapply Rlt_trans; [exact Hlt|]. apply (IH O (S j)); cbn in *; lia.
+  - cbn [nth]. apply IH; cbn in *; lia.
+Qed.
+
+(* ------------------------------------------------------------------ *)
+(* searchsorted: the prefix of entries < x                            *)
+Lemma ssleft_le (c : list R) x : (ssleft c x <= length c)%nat.
+Proof. induction c as [|a c IH]; cbn [ssleft length]; [lia|]. numR. destruct (Rltb a x); lia. Qed.
+
+Lemma ssleft_below (c : list R) x j : (j < ssleft c x)%nat -> nth j c 0 < x.
+Proof.
+  revert j; induction c as [|a c IH]; intros j Hj; cbn in Hj; [lia|].
+  numR. destruct (Rltb_spec a x) as [Hlt|]; [|lia].
+  destruct j; cbn; [exact Hlt | apply IH; lia].
+Qed.
+
+Lemma ssleft_at (c : list R) x : (ssleft c x < length c)%nat -> x <= nth (ssleft c x) c 0.
+Proof.
+  induction c as [|a c IH]; cbn; [lia|]. numR.
+  destruct (Rltb_spec a x) as [Hlt|Hge]; intros Hk; cbn [nth length] in *; [apply IH; lia | lra].
+Qed.
+
+Lemma ssleft_above (c : list R) x j : Asc c -> (ssleft c x <= j)%nat -> (j < length c)%nat -> x <= nth j c 0.
+Proof.
+  intros Ha Hk Hj. apply Rle_trans with (nth (ssleft c x) c 0); [apply ssleft_at; lia|]. apply Asc_le; assumption.
+Qed.
+
+(* the count is determined by the position of x among the nodes *)
+Lemma ssleft_unique (c : list R) x k : Asc c -> (k <= length c)%nat ->
+  (forall j, (j < k)%nat -> nth j c 0 < x) -> ((k < length c)%nat -> x <= nth k c 0) -> ssleft c x = k.
+Proof.
+  intros Ha Hk Hlo Hhi.
+  destruct (lt_eq_lt_dec (ssleft c x) k) as [[Hlt|Heq]|Hgt]; [|exact Heq|].
+  - pose proof (Hlo _ Hlt). pose proof (ssleft_at c x ltac:(lia)). lra.
+  - pose proof (ssleft_below c x k Hgt). pose proof (ssleft_le c x). specialize (Hhi ltac:(lia)). lra.
+Qed.
+
+(* ------------------------------------------------------------------ *)
+(* cell index and normalised distance                                  *)
+Lemma pyget_nat (c : list R) (i : nat) : pyget c (Z.of_nat i) = nth i c 0.
+Proof.
+  unfold pyget, wrap. destruct (Z.ltb_spec (Z.of_nat i) 0); [lia|]. now rewrite Nat2Z.id.
+Qed.
+Lemma pyget_nat1 (c : list R) (i : nat) : pyget c (Z.of_nat i + 1) = nth (S i) c 0.
+Proof. replace (Z.of_nat i + 1)%Z with (Z.of_nat (S i)) by lia. apply pyget_nat. Qed.
+
+Lemma wrap_nat n (i : nat) : wrap n (Z.of_nat i) = i.
+Proof. unfold wrap. destruct (Z.ltb_spec (Z.of_nat i) 0); [lia|]. apply Nat2Z.id. Qed.
+Lemma wrap_nat1 n (i : nat) : wrap n (Z.of_nat i + 1) = S i.
+Proof. replace (Z.of_nat i + 1)%Z with (Z.of_nat (S i)) by lia. apply wrap_nat. Qed.
+Lemma wrap_m1 n : (1 <= n)%nat -> wrap n (-1) = (n - 1)%nat.
+Proof. intros Hn. unfold wrap. change (-1 <? 0)%Z with true. cbv iota. lia. Qed.
+Lemma wrap_0 n : wrap n 0 = O.
+Proof. reflexivity. Qed.
+
+Definition cellnat (c : list R) (x : R) : nat := Nat.min (Nat.pred (ssleft c x)) (length c - 2).
+
+Lemma cell_index_nat (c : list R) x : (2 <= length c)%nat -> cell_index c x = Z.of_nat (cellnat c x).
+Proof.
+  intros Hn. unfold cell_index, cellnat.
+  destruct (Z.ltb_spec (Z.of_nat (ssleft c x) - 1) 0);
+  destruct (Z.ltb_spec (Z.of_nat (length c) - 2) 0);
+  try destruct (Z.ltb_spec (Z.of_nat (length c) - 2) (Z.of_nat (ssleft c x) - 1)); lia.
+Qed.
+
+(* position of x relative to the grid, and what the search returns *)
+Inductive position (c : list R) (x : R) (i : nat) : Prop :=
+| PLow : x <= nth 0 c 0 -> i = O -> position c x i
+| PIn : nth i c 0 < x -> x <= nth (S i) c 0 -> position c x i
+| PHigh : nth (length c - 1) c 0 < x -> i = (length c - 2)%nat -> position c x i.
+
+Lemma cell_position (c : list R) x : Asc c -> (2 <= length c)%nat ->
+  (S (cellnat c x) < length c)%nat /\ position c x (cellnat c x).
+Proof.
+  intros Ha Hn. unfold cellnat. pose proof (ssleft_le c x) as Hk.
+  split; [lia|].
+  destruct (ssleft c x) as [|k] eqn:Ek.
+  - apply PLow; [|cbn; lia]. pose proof (ssleft_at c x ltac:(lia)) as H0. now rewrite Ek in H0.
+  - cbn [Nat.pred]. destruct (Nat.eq_dec (S k) (length c)) as [Hfull|Hnot].
+    + apply PHigh; [|lia]. apply ssleft_below. lia.
+    + replace (Nat.min k (length c - 2)) with k by lia.
+      apply PIn; [apply ssleft_below; lia|]. rewrite <- Ek. apply ssleft_at. lia.
+Qed.
+
+Lemma norm_dist_nat (c : list R) x : (2 <= length c)%nat ->
+  norm_dist c x = (x - nth (cellnat c x) c 0) / (nth (S (cellnat c x)) c 0 - nth (cellnat c x) c 0).
+Proof.
+  intros Hn. unfold norm_dist. rewrite (cell_index_nat c x Hn), pyget_nat, pyget_nat1. reflexivity.
+Qed.
+
+(* ------------------------------------------------------------------ *)
+(* the three regimes of the weight/edge helpers                        *)
+Lemma nhalf_R : @nhalf' R _ = 1 / 2.
+Proof. unfold nhalf'. numR. reflexivity. Qed.
+
+Lemma we_in s (i : Z) y : 0 <= y <= 1 ->
+  weights_edge s i y =
+  match s with
+  | SNearest => mkax i (i + 1) (if Rltb y (1 / 2) then 1 else 0) (if Rltb y (1 / 2) then 0 else 1)
+  | SLinear => mkax i (i + 1) (1 - y) y
+  end.
+Proof.
+  intros Hy. unfold weights_edge. rewrite nhalf_R. numR.
+  destruct (Rltb_spec y 0); [lra|]. destruct (Rltb_spec 1 y); [lra|].
+  destruct s; reflexivity.
+Qed.
+
+Lemma we_lo s (i : Z) y : y < 0 ->
+  weights_edge s i y = mkax i 0 0 (match s with SNearest => 1 | SLinear => y + 1 end).
+Proof.
+  intros Hy. unfold weights_edge. numR.
+  destruct (Rltb_spec y 0); [|lra]. destruct (Rltb_spec 1 y); [lra|].
+  destruct s; reflexivity.
+Qed.
+
+Lemma we_hi s (i : Z) y : 1 < y ->
+  weights_edge s i y = mkax (-1) (i + 1) (match s with SNearest => 1 | SLinear => (1 - y) + 1 end) 0.
+Proof.
+  intros Hy. unfold weights_edge. numR.
+  destruct (Rltb_spec y 0); [lra|]. destruct (Rltb_spec 1 y); [|lra].
+  destruct s; reflexivity.
+Qed.
+
+Lemma axis_data_ge2 s (c : list R) x : (2 <= length c)%nat ->
+  axis_data s c x = weights_edge s (cell_index c x) (norm_dist c x).
+Proof. destruct c as [|a [|b c]]; cbn [length]; intros Hn; try lia; reflexivity. Qed.
+
+(* what one axis contributes: the two nodes read (after NumPy wrap-around) and their weights *)
+Definition blend (n : nat) (a : axdat R) (G : nat -> R) : R :=
+  w_lo a * G (wrap n (e_lo a)) + w_hi a * G (wrap n (e_hi a)).
+
+(* regime analysis packaged: i = cell found, y = normalised distance *)
+Lemma regime (c : list R) x : Asc c -> (2 <= length c)%nat ->
+  let i := cellnat c x in let y := norm_dist c x in
+  (S i < length c)%nat /\ nth i c 0 < nth (S i) c 0 /\
+  y = (x - nth i c 0) / (nth (S i) c 0 - nth i c 0) /\
+  ( (x < nth 0 c 0 /\ i = O /\ y < 0)
+    \/ (nth 0 c 0 <= x <= nth (length c - 1) c 0 /\ nth i c 0 <= x <= nth (S i) c 0 /\ 0 <= y <= 1
+        /\ (nth i c 0 = x -> i = O))
+    \/ (nth (length c - 1) c 0 < x /\ i = (length c - 2)%nat /\ 1 < y) ).
+Proof.
+  intros Ha Hn i y. destruct (cell_position c x Ha Hn) as [Hi Hpos]. fold i in Hi, Hpos.
+  assert (Hlt : nth i c 0 < nth (S i) c 0) by (apply Ha; lia).
+  assert (Hy : y = (x - nth i c 0) / (nth (S i) c 0 - nth i c 0)) by (apply norm_dist_nat; exact Hn).
+  split; [exact Hi|]. split; [exact Hlt|]. split; [exact Hy|].
+  assert (Hd : 0 < nth (S i) c 0 - nth i c 0) by lra.
+  destruct Hpos as [Hx H0 | Hlo Hhi | Hx Hlast].
+  - destruct (Rle_lt_or_eq_dec _ _ Hx) as [Hxl|Hxe].
+    + left. split; [exact Hxl|]. split; [exact H0|]. rewrite Hy, H0 in *.
+      apply Rmult_lt_reg_r with (nth 1 c 0 - nth 0 c 0); [exact Hd|].
+      unfold Rdiv. rewrite Rmult_assoc, Rinv_l by lra. lra.
+    + right; left. rewrite H0 in *. split.
+      { split; [lra|]. rewrite Hxe. apply Asc_le; [exact Ha|lia|lia]. }
+      split; [lra|]. split; [|intros _; reflexivity].
+      rewrite Hy, Hxe. unfold Rdiv. replace (nth 0 c 0 - nth 0 c 0) with 0 by lra. lra.
+  - right; left. split.
+    { split.
+      - apply Rle_trans with (nth i c 0); [apply Asc_le; [exact Ha|lia|lia] | lra].
+      - apply Rle_trans with (nth (S i) c 0); [exact Hhi | apply Asc_le; [exact Ha|lia|lia]]. }
+    split; [lra|]. split; [|intros He; lra].
+    rewrite Hy. split.
+    + apply Rmult_le_reg_r with (nth (S i) c 0 - nth i c 0); [exact Hd|].
+      unfold Rdiv. rewrite Rmult_assoc, Rinv_l by lra. lra.
+    + apply Rmult_le_reg_r with (nth (S i) c 0 - nth i c 0); [exact Hd|].
+      unfold Rdiv. rewrite Rmult_assoc, Rinv_l by lra. lra.
+  - right; right. split; [exact Hx|]. split; [exact Hlast|].
+    rewrite Hy. apply Rmult_lt_reg_r with (nth (S i) c 0 - nth i c 0); [exact Hd|].
+    unfold Rdiv. rewrite Rmult_assoc, Rinv_l by lra.
+    replace (S i) with (length c - 1)%nat in * by lia. lra.
+Qed.
+
+(* ------------------------------------------------------------------ *)
+(* one axis: linear                                                    *)
+(* inside the hull, for EVERY cell [c_i, c_{i+1}] that contains x (the search may pick the
+   neighbouring one when x is a node; the value is the same) *)
+Lemma blend_linear_in (c : list R) x (G : nat -> R) i : Asc c -> (S i < length c)%nat ->
+  nth i c 0 <= x <= nth (S i) c 0 ->
+  let t := (x - nth i c 0) / (nth (S i) c 0 - nth i c 0) in
+  blend (length c) (axis_data SLinear c x) G = (1 - t) * G i + t * G (S i).
+Proof.
+  intros Ha Hi Hx t. assert (Hn : (2 <= length c)%nat) by lia.
+  destruct (regime c x Ha Hn) as (Hi' & Hlt & Hy & Hreg).
+  set (k := cellnat c x) in *. set (y := norm_dist c x) in *.
+  assert (Hci : nth i c 0 < nth (S i) c 0) by (apply Ha; lia).
+  destruct Hreg as [(Hxl & _ & _) | [(Hhull & Hcell & Hy01 & Hk0) | (Hxh & _ & _)]].
+  - exfalso. pose proof (Asc_le c O i Ha ltac:(lia) ltac:(lia)). lra.
+  - rewrite (axis_data_ge2 _ _ _ Hn). fold y. rewrite (cell_index_nat c x Hn). fold k.
+    rewrite (we_in SLinear _ y Hy01). unfold blend. cbn [e_lo e_hi w_lo w_hi].
+    rewrite wrap_nat, wrap_nat1.
+    destruct (lt_eq_lt_dec i k) as [[Hik|Hik]|Hik].
+    + (* i < k: then c_{i+1} <= c_k <= x <= c_{i+1}, so x = c_k, k = 0: impossible *)
+      exfalso. pose proof (Asc_le c (S i) k Ha ltac:(lia) ltac:(lia)) as Hle.
+      assert (Hkx : nth k c 0 = x) by lra. specialize (Hk0 Hkx). lia.
+    + subst i. fold t. subst t. rewrite <- Hy. reflexivity.
+    + (* k < i: c_{k+1} <= c_i <= x <= c_{k+1}: x = c_i = c_{k+1}, so i = k+1, y = 1, t = 0 *)
+      pose proof (Asc_le c (S k) i Ha ltac:(lia) ltac:(lia)) as Hle.
+      assert (Hxi : x = nth i c 0) by lra. assert (Hxk : x = nth (S k) c 0) by lra.
+      assert (i = S k).
+      { destruct (Nat.eq_dec i (S k)) as [|Hne]; [assumption|].
+        pose proof (Ha (S k) i ltac:(lia) ltac:(lia)). lra. }
+      subst i. assert (Hy1 : y = 1). { rewrite Hy, Hxk. field. lra. }
+      assert (Ht0 : t = 0). { subst t. rewrite Hxi. unfold Rdiv. replace (nth (S k) c 0 - nth (S k) c 0) with 0 by lra. lra. }
+      rewrite Hy1, Ht0. lra.
+  - exfalso. pose proof (Asc_le c (S i) (length c - 1) Ha ltac:(lia) ltac:(lia)). lra.
+Qed.
+
+(* the documented extension outside the hull: linear decay to 0 over one cell width
+   (and linear continuation beyond it) *)
+Lemma blend_linear_low (c : list R) x (G : nat -> R) : Asc c -> (2 <= length c)%nat -> x < nth 0 c 0 ->
+  blend (length c) (axis_data SLinear c x) G = (1 - (nth 0 c 0 - x) / (nth 1 c 0 - nth 0 c 0)) * G O.
+Proof.
+  intros Ha Hn Hx. destruct (regime c x Ha Hn) as (Hi' & Hlt & Hy & Hreg).
+  set (k := cellnat c x) in *. set (y := norm_dist c x) in *.
+  destruct Hreg as [(_ & Hk & Hy0) | [(Hhull & _) | (Hxh & _ & _)]].
+  - rewrite (axis_data_ge2 _ _ _ Hn). fold y. rewrite (we_lo SLinear _ y Hy0).
+    unfold blend. cbn [e_lo e_hi w_lo w_hi]. rewrite wrap_0, Hy, Hk. field. rewrite Hk in Hlt. lra.
+  - lra.
+  - pose proof (Asc_le c O (length c - 1) Ha ltac:(lia) ltac:(lia)). lra.
+Qed.
+
+Lemma blend_linear_high (c : list R) x (G : nat -> R) : Asc c -> (2 <= length c)%nat ->
+  nth (length c - 1) c 0 < x ->
+  blend (length c) (axis_data SLinear c x) G =
+  (1 - (x - nth (length c - 1) c 0) / (nth (length c - 1) c 0 - nth (length c - 2) c 0)) * G (length c - 1)%nat.
+Proof.
+  intros Ha Hn Hx. destruct (regime c x Ha Hn) as (Hi' & Hlt & Hy & Hreg).
+  set (k := cellnat c x) in *. set (y := norm_dist c x) in *.
+  destruct Hreg as [(Hxl & _) | [(Hhull & _) | (_ & Hk & Hy1)]].
+  - pose proof (Asc_le c O (length c - 1) Ha ltac:(lia) ltac:(lia)). lra.
+  - lra.
+  - rewrite (axis_data_ge2 _ _ _ Hn). fold y. rewrite (we_hi SLinear _ y Hy1).
+    unfold blend. cbn [e_lo e_hi w_lo w_hi]. rewrite wrap_m1 by lia. rewrite Hy, Hk.
+    assert (HS : S (length c - 2) = (length c - 1)%nat) by lia.
+    rewrite Hk in Hlt. rewrite HS in *. field. lra.
+Qed.
+
+(* inside the hull the two weights are a convex pair and reproduce x *)
+Lemma weights_in_hull s (c : list R) x : Asc c -> (2 <= length c)%nat ->
+  nth 0 c 0 <= x <= nth (length c - 1) c 0 ->
+  let a := axis_data s c x in
+  w_lo a + w_hi a = 1 /\ 0 <= w_lo a /\ 0 <= w_hi a /\
+  (s = SLinear -> w_lo a * nth (wrap (length c) (e_lo a)) c 0 + w_hi a * nth (wrap (length c) (e_hi a)) c 0 = x).
+Proof.
+  intros Ha Hn Hx a. destruct (regime c x Ha Hn) as (Hi' & Hlt & Hy & Hreg).
+  set (k := cellnat c x) in *. set (y := norm_dist c x) in *.
+  destruct Hreg as [(Hxl & _) | [(_ & Hcell & Hy01 & _) | (Hxh & _)]]; [lra| |lra].
+  subst a. rewrite (axis_data_ge2 _ _ _ Hn). fold y. rewrite (cell_index_nat c x Hn). fold k.
+  rewrite (we_in s _ y Hy01). destruct s; cbn [e_lo e_hi w_lo w_hi].
+  - destruct (Rltb y (1 / 2)); repeat split; try lra; intros; discriminate.
+  - repeat split; try lra. intros _. rewrite wrap_nat, wrap_nat1, Hy. field. lra.
+Qed.
+
+(* ------------------------------------------------------------------ *)
+(* one axis: nearest                                                   *)
+Definition nearest_nat (c : list R) (x : R) : nat :=
+  match c with
+  | [_] => O
+  | _ => if Rltb (norm_dist c x) (1 / 2) then cellnat c x else S (cellnat c x)
+  end.
+
+Lemma nearest_nat_ge2 (c : list R) x : (2 <= length c)%nat ->
+  nearest_nat c x = if Rltb (norm_dist c x) (1 / 2) then cellnat c x else S (cellnat c x).
+Proof. destruct c as [|a [|b c]]; cbn [length]; intros Hn; try lia; reflexivity. Qed.
+
+(* _NearestInterpolator's subscript *)
+Lemma nearest_index_nat (c : list R) x : (1 <= length c)%nat ->
+  nearest_index c x = Z.of_nat (nearest_nat c x).
+Proof.
+  intros Hn. destruct c as [|a [|b c]]; [cbn in Hn; lia | reflexivity |].
+  unfold nearest_index, nearest_nat. rewrite nhalf_R. numR.
+  rewrite cell_index_nat by (cbn; lia).
+  destruct (Rltb _ _); lia.
+Qed.
+
+(* per-axis 'nearest' weights: in every regime exactly the node [nearest_nat] is read with weight 1 *)
+Lemma blend_nearest (c : list R) x (G : nat -> R) : Asc c -> (1 <= length c)%nat ->
+  blend (length c) (axis_data SNearest c x) G = G (nearest_nat c x).
+Proof.
+  intros Ha Hn. destruct (Nat.eq_dec (length c) 1) as [H1|H1].
+  - destruct c as [|a [|b c]]; cbn in H1; try lia. unfold blend; cbn. lra.
+  - assert (Hn2 : (2 <= length c)%nat) by lia.
+    destruct (regime c x Ha Hn2) as (Hi' & Hlt & Hy & Hreg).
+    rewrite (nearest_nat_ge2 c x Hn2), (axis_data_ge2 _ _ _ Hn2), (cell_index_nat c x Hn2).
+    set (k := cellnat c x) in *. set (y := norm_dist c x) in *.
+    destruct Hreg as [(_ & Hk & Hy0) | [(_ & _ & Hy01 & _) | (_ & Hk & Hy1)]].
+    + rewrite (we_lo SNearest _ y Hy0). unfold blend; cbn [e_lo e_hi w_lo w_hi].
+      destruct (Rltb_spec y (1 / 2)); [|lra]. rewrite wrap_0, Hk. lra.
+    + rewrite (we_in SNearest _ y Hy01). unfold blend; cbn [e_lo e_hi w_lo w_hi].
+      rewrite wrap_nat, wrap_nat1. destruct (Rltb y (1 / 2)); lra.
+    + rewrite (we_hi SNearest _ y Hy1). unfold blend; cbn [e_lo e_hi w_lo w_hi].
+      destruct (Rltb_spec y (1 / 2)); [lra|]. rewrite wrap_m1 by lia.
+      replace (S k) with (length c - 1)%nat by lia. lra.
+Qed.
+
+(* the node that is read is a closest node, and the rightmost of the closest ones *)
+Definition closest (c : list R) (x : R) (j : nat) : Prop :=
+  (j < length c)%nat /\
+  forall m, (m < length c)%nat ->
+    Rabs (x - nth j c 0) <= Rabs (x - nth m c 0) /\ ((j < m)%nat -> Rabs (x - nth j c 0) < Rabs (x - nth m c 0)).
+
+Lemma nearest_closest (c : list R) x : Asc c -> (1 <= length c)%nat -> closest c x (nearest_nat c x).
+Proof.
+  intros Ha Hn. destruct (Nat.eq_dec (length c) 1) as [H1|H1].
+  - destruct c as [|a [|b c]]; cbn in H1; try lia. split; [cbn; lia|].
+    intros m Hm. cbn in Hm. assert (m = O) by lia. subst m. cbn. split; [lra|lia].
+  - assert (Hn2 : (2 <= length c)%nat) by lia.
+    destruct (regime c x Ha Hn2) as (Hi' & Hlt & Hy & Hreg).
+    rewrite (nearest_nat_ge2 c x Hn2).
+    set (k := cellnat c x) in *. set (y := norm_dist c x) in *.
+    assert (Hd : 0 < nth (S k) c 0 - nth k c 0) by lra.
+    assert (Hyx : y * (nth (S k) c 0 - nth k c 0) = x - nth k c 0).
+    { rewrite Hy. field. lra. }
+    destruct (Rltb_spec y (1 / 2)) as [Hh|Hh].
+    + (* closer to the lower node of the cell (or below the grid) *)
+      split; [lia|]. intros m Hm.
+      assert (Hxk : x - nth k c 0 < nth (S k) c 0 - x) by nra.
+      destruct (le_lt_dec m k) as [Hmk|Hmk].
+      * pose proof (Asc_le c m k Ha Hmk ltac:(lia)) as Hle. split; [|lia].
+        destruct Hreg as [(Hx0 & Hk & _) | [(_ & Hcell & _) | (_ & _ & Hy1)]]; [| |lra].
+        { assert (m = O) by lia. subst m. rewrite Hk. lra. }
+        rewrite !Rabs_pos_eq by lra. lra.
+      * pose proof (Asc_le c (S k) m Ha ltac:(lia) Hm) as Hle.
+        assert (Hgoal : Rabs (x - nth k c 0) < Rabs (x - nth m c 0)).
+        { rewrite (Rabs_left1 (x - nth m c 0)) by lra.
+          unfold Rabs. destruct (Rcase_abs (x - nth k c 0)); lra. }
+        split; [lra | intros _; exact Hgoal].
+    + (* at least as close to the upper node (ties go right), or above the grid *)
+      split; [lia|]. intros m Hm.
+      assert (Hxk : nth (S k) c 0 - x <= x - nth k c 0) by nra.
+      destruct (le_lt_dec m k) as [Hmk|Hmk].
+      * pose proof (Asc_le c m k Ha Hmk ltac:(lia)) as Hle. split; [|lia].
+        rewrite (Rabs_pos_eq (x - nth m c 0)) by lra.
+        unfold Rabs. destruct (Rcase_abs (x - nth (S k) c 0)); lra.
+      * destruct (Nat.eq_dec m (S k)) as [->|Hne]; [split; [lra|lia]|].
+        pose proof (Ha (S k) m ltac:(lia) Hm) as Hlt2.
+        destruct Hreg as [(_ & _ & Hy0) | [(_ & Hcell & _) | (Hxh & Hk & _)]]; [lra| |lia].
+        assert (Hgoal : Rabs (x - nth (S k) c 0) < Rabs (x - nth m c 0)).
+        { rewrite !Rabs_left1 by lra. lra. }
+        split; [lra | intros _; exact Hgoal].
+Qed.
+
+Lemma closest_unique (c : list R) x j j' : closest c x j -> closest c x j' -> j = j'.
+Proof.
+  intros [Hj H1] [Hj' H2].
+  destruct (lt_eq_lt_dec j j') as [[Hlt|Heq]|Hgt]; [|exact Heq|].
+  - destruct (H1 j' Hj') as [_ Hs]. destruct (H2 j Hj) as [Hle _]. specialize (Hs Hlt). lra.
+  - destruct (H2 j Hj) as [_ Hs]. destruct (H1 j' Hj') as [Hle _]. specialize (Hs Hgt). lra.
+Qed.
